@@ -19,6 +19,7 @@ import RbV.Thm.GenSrcLcp
 import RbV.Thm.GenSrcTransform
 import RbV.Thm.GenSrcPosTypes
 import RbV.Thm.GenSrcSaisBuckets
+import RbV.Thm.GenSrcSaisCalcPos
 /-!
 # C03 — suffix array = sorted permutation of all suffixes; LCP; shortest unique substrings
 
@@ -762,5 +763,42 @@ example : (do let (m, bst) ← Gen.SrcSaisBuckets.init_bucket_start some [] [] [
 -- a symbol that does not fit `usize` (`cast(c).unwrap()`), and the empty text (`&bucket_start[1..]`), panic
 example : Gen.SrcSaisBuckets.init_bucket_start (fun _ => none) [] [] [1, 0] = Rs.Res.panic := by decide
 example : Gen.SrcSaisBuckets.init_bucket_end [] [] [] = Rs.Res.panic := by decide
+
+/-! ### translated text of `Sais::calc_pos` (`RbV/Gen/SrcSaisCalcPos.lean`; builder gensa) -/
+
+/-- **translated `calc_pos` = the mirror model `Sais.calcPosRun`, step by step, on every index-safe run** — with the
+*translated* `init_bucket_start`, `init_bucket_end`, `is_l_pos`, `is_s_pos` in the place of its callees, on a text SA-IS
+accepts with its L/S typing: placement of the LMS positions from the right (`wrapping_sub`), bucket-end reset, L pass with
+the `p == n || p == 0` skip, S pass with only the `p == 0` skip.  `SafeRun` says that every index the three passes of the
+*model* use is in range (the model totalises such accesses, the code panics).  **Partial**: missing is the proof that every
+run on a `Sais.Valid` text with a list of LMS positions is index-safe (true on every case of the correspondence run; the
+invariants of `Lemmas/SaisPlace/LPass/SPass.lean` do not export the bounds). -/
+theorem calc_pos_source_eq_model_partial (castU : Nat → Option Nat) (pos0 lms : List Nat) (bsz : Rs.VecMap)
+    (bst0 be0 t : List Nat) (hv : Sais.Valid t) (hc : ∀ c ∈ t, castU c = some c) (hsz : t.length < 2 ^ 64)
+    (hsafe : Thm.GenSrcSaisCalcPos.SafeRun t (Sais.tyOf t) lms) :
+    ∃ m, Gen.SrcSaisCalcPos.calc_pos castU (Gen.SrcPosTypes.is_l_pos (Sais.tyOf t)) (Gen.SrcPosTypes.is_s_pos (Sais.tyOf t))
+        (Gen.SrcPosTypes.is_lms_pos (Sais.tyOf t)) (Gen.SrcSaisBuckets.init_bucket_start castU)
+        Gen.SrcSaisBuckets.init_bucket_end pos0 lms bsz bst0 be0 t (Sais.tyOf t) =
+      Rs.Res.ok ((Sais.calcPosRun t (Sais.tyOf t) lms).pos, m, (Sais.calcPosRun t (Sais.tyOf t) lms).bStart,
+        (Sais.calcPosRun t (Sais.tyOf t) lms).bEnd) := by
+  obtain ⟨m, h1, _⟩ := Thm.GenSrcSaisBuckets.init_bucket_start_spec castU bsz bst0 t hc hsz
+  exact ⟨m, Thm.GenSrcSaisCalcPos.calc_pos_eq_model castU _ _ _ _ _ pos0 lms bsz bst0 be0 t (Sais.tyOf t) m hc
+    (fun q hq => Thm.GenSrcPosTypes.is_l_pos_eq_model _ q hq) (fun q hq => Thm.GenSrcPosTypes.is_s_pos_eq_model _ q hq)
+    h1 (fun be => Thm.GenSrcSaisBuckets.init_bucket_end_valid be t hv) hsafe⟩
+
+-- the run on the doc-test text of `suffix_array_int` with its sorted LMS positions is index-safe, and the translated code
+-- evaluated on it returns the suffix array
+example : Thm.GenSrcSaisCalcPos.SafeRun [3, 2, 2, 4, 4, 1, 2, 1, 0] (Sais.tyOf [3, 2, 2, 4, 4, 1, 2, 1, 0]) [8, 5, 1] :=
+  ⟨by decide, by decide, by decide, by decide⟩
+example : (do
+    let ty ← Gen.SrcPosTypes.new [3, 2, 2, 4, 4, 1, 2, 1, 0]
+    let r ← Gen.SrcSaisCalcPos.calc_pos some (Gen.SrcPosTypes.is_l_pos ty) (Gen.SrcPosTypes.is_s_pos ty)
+      (Gen.SrcPosTypes.is_lms_pos ty) (Gen.SrcSaisBuckets.init_bucket_start some) Gen.SrcSaisBuckets.init_bucket_end
+      [] [8, 5, 1] [] [] [] [3, 2, 2, 4, 4, 1, 2, 1, 0] ty
+    pure r.1) = Rs.Res.ok [8, 7, 5, 6, 1, 2, 0, 4, 3] := by decide
+-- an LMS list with a position outside the text: the code panics (the model drops the write)
+example : Gen.SrcSaisCalcPos.calc_pos some (fun _ => Rs.Res.ok false) (fun _ => Rs.Res.ok false) (fun _ => Rs.Res.ok false)
+    (Gen.SrcSaisBuckets.init_bucket_start some) Gen.SrcSaisBuckets.init_bucket_end [] [7] [] [] [] [1, 0] [false, true]
+    = Rs.Res.panic := by decide
 
 end RbV.Thm.C03
